@@ -7,7 +7,7 @@ jac = diag(dself) @ self.jac + diag(dother) @ other.jac.   var 0 = self.val, var
 import PorepyVerif.C01.Model
 namespace PorepyVerif.C01.Gen
 
-/-- forward_mode.py:158 AdArray.__add__, other = S -/
+/-- forward_mode.py:160 AdArray.__add__, other = S -/
 def add_S : Rule :=
   { name := "add_S",
     val := (.add (.var 0) (.var 1)),
@@ -15,7 +15,7 @@ def add_S : Rule :=
     dother := none,
     plain := none }
 
-/-- forward_mode.py:158 AdArray.__add__, other = A -/
+/-- forward_mode.py:160 AdArray.__add__, other = A -/
 def add_A : Rule :=
   { name := "add_A",
     val := (.add (.var 0) (.var 1)),
@@ -23,7 +23,7 @@ def add_A : Rule :=
     dother := none,
     plain := none }
 
-/-- forward_mode.py:158 AdArray.__add__, other = Ad -/
+/-- forward_mode.py:160 AdArray.__add__, other = Ad -/
 def add_Ad : Rule :=
   { name := "add_Ad",
     val := (.add (.var 0) (.var 1)),
@@ -31,7 +31,7 @@ def add_Ad : Rule :=
     dother := some (.const (1 : Rat)),
     plain := none }
 
-/-- forward_mode.py:195 AdArray.__radd__, other = S -/
+/-- forward_mode.py:197 AdArray.__radd__, other = S -/
 def radd_S : Rule :=
   { name := "radd_S",
     val := (.add (.var 0) (.var 1)),
@@ -39,7 +39,7 @@ def radd_S : Rule :=
     dother := none,
     plain := none }
 
-/-- forward_mode.py:195 AdArray.__radd__, other = A -/
+/-- forward_mode.py:197 AdArray.__radd__, other = A -/
 def radd_A : Rule :=
   { name := "radd_A",
     val := (.add (.var 0) (.var 1)),
@@ -47,7 +47,7 @@ def radd_A : Rule :=
     dother := none,
     plain := none }
 
-/-- forward_mode.py:195 AdArray.__radd__, other = Ad -/
+/-- forward_mode.py:197 AdArray.__radd__, other = Ad -/
 def radd_Ad : Rule :=
   { name := "radd_Ad",
     val := (.add (.var 0) (.var 1)),
@@ -55,7 +55,7 @@ def radd_Ad : Rule :=
     dother := some (.const (1 : Rat)),
     plain := none }
 
-/-- forward_mode.py:211 AdArray.__sub__, other = S -/
+/-- forward_mode.py:213 AdArray.__sub__, other = S -/
 def sub_S : Rule :=
   { name := "sub_S",
     val := (.add (.var 0) (.neg (.var 1))),
@@ -63,7 +63,7 @@ def sub_S : Rule :=
     dother := none,
     plain := none }
 
-/-- forward_mode.py:211 AdArray.__sub__, other = A -/
+/-- forward_mode.py:213 AdArray.__sub__, other = A -/
 def sub_A : Rule :=
   { name := "sub_A",
     val := (.add (.var 0) (.neg (.var 1))),
@@ -71,7 +71,7 @@ def sub_A : Rule :=
     dother := none,
     plain := none }
 
-/-- forward_mode.py:211 AdArray.__sub__, other = Ad -/
+/-- forward_mode.py:213 AdArray.__sub__, other = Ad -/
 def sub_Ad : Rule :=
   { name := "sub_Ad",
     val := (.add (.var 0) (.neg (.var 1))),
@@ -79,7 +79,7 @@ def sub_Ad : Rule :=
     dother := some (.neg (.const (1 : Rat))),
     plain := none }
 
-/-- forward_mode.py:227 AdArray.__rsub__, other = S -/
+/-- forward_mode.py:229 AdArray.__rsub__, other = S -/
 def rsub_S : Rule :=
   { name := "rsub_S",
     val := (.neg (.add (.var 0) (.neg (.var 1)))),
@@ -87,7 +87,7 @@ def rsub_S : Rule :=
     dother := none,
     plain := none }
 
-/-- forward_mode.py:227 AdArray.__rsub__, other = A -/
+/-- forward_mode.py:229 AdArray.__rsub__, other = A -/
 def rsub_A : Rule :=
   { name := "rsub_A",
     val := (.neg (.add (.var 0) (.neg (.var 1)))),
@@ -95,7 +95,7 @@ def rsub_A : Rule :=
     dother := none,
     plain := none }
 
-/-- forward_mode.py:227 AdArray.__rsub__, other = Ad -/
+/-- forward_mode.py:229 AdArray.__rsub__, other = Ad -/
 def rsub_Ad : Rule :=
   { name := "rsub_Ad",
     val := (.neg (.add (.var 0) (.neg (.var 1)))),
@@ -103,7 +103,7 @@ def rsub_Ad : Rule :=
     dother := some (.neg (.neg (.const (1 : Rat)))),
     plain := none }
 
-/-- forward_mode.py:244 AdArray.__mul__, other = S -/
+/-- forward_mode.py:246 AdArray.__mul__, other = S -/
 def mul_S : Rule :=
   { name := "mul_S",
     val := (.mul (.var 0) (.var 1)),
@@ -111,7 +111,7 @@ def mul_S : Rule :=
     dother := none,
     plain := none }
 
-/-- forward_mode.py:244 AdArray.__mul__, other = A -/
+/-- forward_mode.py:246 AdArray.__mul__, other = A -/
 def mul_A : Rule :=
   { name := "mul_A",
     val := (.mul (.var 0) (.var 1)),
@@ -119,7 +119,7 @@ def mul_A : Rule :=
     dother := none,
     plain := none }
 
-/-- forward_mode.py:244 AdArray.__mul__, other = Ad -/
+/-- forward_mode.py:246 AdArray.__mul__, other = Ad -/
 def mul_Ad : Rule :=
   { name := "mul_Ad",
     val := (.mul (.var 0) (.var 1)),
@@ -127,7 +127,7 @@ def mul_Ad : Rule :=
     dother := some (.var 0),
     plain := none }
 
-/-- forward_mode.py:309 AdArray.__rmul__, other = S -/
+/-- forward_mode.py:311 AdArray.__rmul__, other = S -/
 def rmul_S : Rule :=
   { name := "rmul_S",
     val := (.mul (.var 0) (.var 1)),
@@ -135,7 +135,7 @@ def rmul_S : Rule :=
     dother := none,
     plain := none }
 
-/-- forward_mode.py:309 AdArray.__rmul__, other = A -/
+/-- forward_mode.py:311 AdArray.__rmul__, other = A -/
 def rmul_A : Rule :=
   { name := "rmul_A",
     val := (.mul (.var 0) (.var 1)),
@@ -143,7 +143,7 @@ def rmul_A : Rule :=
     dother := none,
     plain := none }
 
-/-- forward_mode.py:341 AdArray.__pow__, other = S -/
+/-- forward_mode.py:343 AdArray.__pow__, other = S -/
 def pow_S : Rule :=
   { name := "pow_S",
     val := (.pow (.var 0) (.var 1)),
@@ -151,15 +151,15 @@ def pow_S : Rule :=
     dother := none,
     plain := none }
 
-/-- forward_mode.py:341 AdArray.__pow__, other = A -/
+/-- forward_mode.py:343 AdArray.__pow__, other = A -/
 def pow_A : Rule :=
   { name := "pow_A",
     val := (.pow (.var 0) (.var 1)),
-    dself := (.mul (.var 1) (.pow (.var 0) (.var 1))),
+    dself := (.mul (.var 1) (.pow (.var 0) (.sub (.var 1) (.const (1 : Rat))))),
     dother := none,
     plain := none }
 
-/-- forward_mode.py:341 AdArray.__pow__, other = Ad -/
+/-- forward_mode.py:343 AdArray.__pow__, other = Ad -/
 def pow_Ad : Rule :=
   { name := "pow_Ad",
     val := (.pow (.var 0) (.var 1)),
@@ -167,7 +167,7 @@ def pow_Ad : Rule :=
     dother := some (.mul (.pow (.var 0) (.var 1)) (.un .log (.var 0))),
     plain := none }
 
-/-- forward_mode.py:408 AdArray.__rpow__, other = S -/
+/-- forward_mode.py:410 AdArray.__rpow__, other = S -/
 def rpow_S : Rule :=
   { name := "rpow_S",
     val := (.pow (.var 1) (.var 0)),
@@ -175,7 +175,7 @@ def rpow_S : Rule :=
     dother := none,
     plain := none }
 
-/-- forward_mode.py:408 AdArray.__rpow__, other = A -/
+/-- forward_mode.py:410 AdArray.__rpow__, other = A -/
 def rpow_A : Rule :=
   { name := "rpow_A",
     val := (.pow (.var 1) (.var 0)),
@@ -183,7 +183,7 @@ def rpow_A : Rule :=
     dother := none,
     plain := none }
 
-/-- forward_mode.py:408 AdArray.__rpow__, other = Ad -/
+/-- forward_mode.py:410 AdArray.__rpow__, other = Ad -/
 def rpow_Ad : Rule :=
   { name := "rpow_Ad",
     val := (.pow (.var 1) (.var 0)),
@@ -191,7 +191,7 @@ def rpow_Ad : Rule :=
     dother := some (.mul (.var 0) (.pow (.var 1) (.sub (.var 0) (.const (1 : Rat))))),
     plain := none }
 
-/-- forward_mode.py:461 AdArray.__truediv__, other = S -/
+/-- forward_mode.py:463 AdArray.__truediv__, other = S -/
 def truediv_S : Rule :=
   { name := "truediv_S",
     val := (.div (.var 0) (.var 1)),
@@ -199,7 +199,7 @@ def truediv_S : Rule :=
     dother := none,
     plain := none }
 
-/-- forward_mode.py:461 AdArray.__truediv__, other = A -/
+/-- forward_mode.py:463 AdArray.__truediv__, other = A -/
 def truediv_A : Rule :=
   { name := "truediv_A",
     val := (.mul (.var 0) (.pow (.var 1) (.const (-1 : Rat)))),
@@ -207,7 +207,7 @@ def truediv_A : Rule :=
     dother := none,
     plain := none }
 
-/-- forward_mode.py:461 AdArray.__truediv__, other = Ad -/
+/-- forward_mode.py:463 AdArray.__truediv__, other = Ad -/
 def truediv_Ad : Rule :=
   { name := "truediv_Ad",
     val := (.mul (.var 0) (.pow (.var 1) (.const (-1 : Rat)))),
@@ -215,7 +215,7 @@ def truediv_Ad : Rule :=
     dother := some (.mul (.var 0) (.mul (.const (-1 : Rat)) (.pow (.var 1) (.sub (.const (-1 : Rat)) (.const (1 : Rat)))))),
     plain := none }
 
-/-- forward_mode.py:506 AdArray.__rtruediv__, other = S -/
+/-- forward_mode.py:508 AdArray.__rtruediv__, other = S -/
 def rtruediv_S : Rule :=
   { name := "rtruediv_S",
     val := (.mul (.pow (.var 0) (.const (-1 : Rat))) (.var 1)),
@@ -223,7 +223,7 @@ def rtruediv_S : Rule :=
     dother := none,
     plain := none }
 
-/-- forward_mode.py:506 AdArray.__rtruediv__, other = A -/
+/-- forward_mode.py:508 AdArray.__rtruediv__, other = A -/
 def rtruediv_A : Rule :=
   { name := "rtruediv_A",
     val := (.mul (.pow (.var 0) (.const (-1 : Rat))) (.var 1)),
@@ -231,7 +231,7 @@ def rtruediv_A : Rule :=
     dother := none,
     plain := none }
 
-/-- forward_mode.py:506 AdArray.__rtruediv__, other = Ad -/
+/-- forward_mode.py:508 AdArray.__rtruediv__, other = Ad -/
 def rtruediv_Ad : Rule :=
   { name := "rtruediv_Ad",
     val := (.mul (.var 1) (.pow (.var 0) (.const (-1 : Rat)))),
@@ -239,7 +239,7 @@ def rtruediv_Ad : Rule :=
     dother := some (.pow (.var 0) (.const (-1 : Rat))),
     plain := none }
 
-/-- forward_mode.py:597 AdArray.__neg__ -/
+/-- forward_mode.py:599 AdArray.__neg__ -/
 def neg : Rule :=
   { name := "neg",
     val := (.neg (.var 0)),
@@ -275,11 +275,11 @@ def abs : Rule :=
 def safe_power : Rule :=
   { name := "safe_power",
     val := (.ifgt (.un .abs (.var 0)) (.var 3) (.pow (.var 0) (.var 1)) (.mul (.const (1 : Rat)) (.var 2))),
-    dself := (.mul (.var 1) (.pow (.ifgt (.un .abs (.var 0)) (.var 3) (.pow (.var 0) (.var 1)) (.mul (.const (1 : Rat)) (.var 2))) (.sub (.var 1) (.const (1 : Rat))))),
+    dself := (.ifgt (.un .abs (.var 0)) (.var 3) (.mul (.var 1) (.pow (.var 0) (.sub (.var 1) (.const (1 : Rat))))) (.const (0 : Rat))),
     dother := none,
     plain := some (.ifgt (.un .abs (.var 0)) (.var 3) (.pow (.var 0) (.var 1)) (.mul (.const (1 : Rat)) (.var 2))) }
 
-/-- functions.py:177 sin(var) -/
+/-- functions.py:181 sin(var) -/
 def sin : Rule :=
   { name := "sin",
     val := (.un .sin (.var 0)),
@@ -287,7 +287,7 @@ def sin : Rule :=
     dother := none,
     plain := some (.un .sin (.var 0)) }
 
-/-- functions.py:186 cos(var) -/
+/-- functions.py:190 cos(var) -/
 def cos : Rule :=
   { name := "cos",
     val := (.un .cos (.var 0)),
@@ -295,7 +295,7 @@ def cos : Rule :=
     dother := none,
     plain := some (.un .cos (.var 0)) }
 
-/-- functions.py:195 tan(var) -/
+/-- functions.py:199 tan(var) -/
 def tan : Rule :=
   { name := "tan",
     val := (.un .tan (.var 0)),
@@ -303,7 +303,7 @@ def tan : Rule :=
     dother := none,
     plain := some (.un .tan (.var 0)) }
 
-/-- functions.py:204 arcsin(var) -/
+/-- functions.py:208 arcsin(var) -/
 def arcsin : Rule :=
   { name := "arcsin",
     val := (.un .arcsin (.var 0)),
@@ -311,7 +311,7 @@ def arcsin : Rule :=
     dother := none,
     plain := some (.un .arcsin (.var 0)) }
 
-/-- functions.py:213 arccos(var) -/
+/-- functions.py:217 arccos(var) -/
 def arccos : Rule :=
   { name := "arccos",
     val := (.un .arccos (.var 0)),
@@ -319,7 +319,7 @@ def arccos : Rule :=
     dother := none,
     plain := some (.un .arccos (.var 0)) }
 
-/-- functions.py:222 arctan(var) -/
+/-- functions.py:226 arctan(var) -/
 def arctan : Rule :=
   { name := "arctan",
     val := (.un .arctan (.var 0)),
@@ -327,7 +327,7 @@ def arctan : Rule :=
     dother := none,
     plain := some (.un .arctan (.var 0)) }
 
-/-- functions.py:232 sinh(var) -/
+/-- functions.py:236 sinh(var) -/
 def sinh : Rule :=
   { name := "sinh",
     val := (.un .sinh (.var 0)),
@@ -335,7 +335,7 @@ def sinh : Rule :=
     dother := none,
     plain := some (.un .sinh (.var 0)) }
 
-/-- functions.py:241 cosh(var) -/
+/-- functions.py:245 cosh(var) -/
 def cosh : Rule :=
   { name := "cosh",
     val := (.un .cosh (.var 0)),
@@ -343,7 +343,7 @@ def cosh : Rule :=
     dother := none,
     plain := some (.un .cosh (.var 0)) }
 
-/-- functions.py:250 tanh(var) -/
+/-- functions.py:254 tanh(var) -/
 def tanh : Rule :=
   { name := "tanh",
     val := (.un .tanh (.var 0)),
@@ -351,7 +351,7 @@ def tanh : Rule :=
     dother := none,
     plain := some (.un .tanh (.var 0)) }
 
-/-- functions.py:259 arcsinh(var) -/
+/-- functions.py:263 arcsinh(var) -/
 def arcsinh : Rule :=
   { name := "arcsinh",
     val := (.un .arcsinh (.var 0)),
@@ -359,7 +359,7 @@ def arcsinh : Rule :=
     dother := none,
     plain := some (.un .arcsinh (.var 0)) }
 
-/-- functions.py:268 arccosh(var) -/
+/-- functions.py:272 arccosh(var) -/
 def arccosh : Rule :=
   { name := "arccosh",
     val := (.un .arccosh (.var 0)),
@@ -367,7 +367,7 @@ def arccosh : Rule :=
     dother := none,
     plain := some (.un .arccosh (.var 0)) }
 
-/-- functions.py:279 arctanh(var) -/
+/-- functions.py:283 arctanh(var) -/
 def arctanh : Rule :=
   { name := "arctanh",
     val := (.un .arctanh (.var 0)),
@@ -375,7 +375,7 @@ def arctanh : Rule :=
     dother := none,
     plain := some (.un .arctanh (.var 0)) }
 
-/-- functions.py:289 heaviside(zerovalue, var) -/
+/-- functions.py:293 heaviside(zerovalue, var) -/
 def heaviside : Rule :=
   { name := "heaviside",
     val := (.heaviside (.var 0) (.var 1)),
@@ -383,7 +383,7 @@ def heaviside : Rule :=
     dother := none,
     plain := some (.heaviside (.var 0) (.var 1)) }
 
-/-- functions.py:317 heaviside_smooth(var, eps) -/
+/-- functions.py:321 heaviside_smooth(var, eps) -/
 def heaviside_smooth : Rule :=
   { name := "heaviside_smooth",
     val := (.mul (.const ((1 : Rat) / 2)) (.add (.const (1 : Rat)) (.mul (.mul (.const (2 : Rat)) (.pow .pi (.const (-1 : Rat)))) (.un .arctan (.mul (.var 0) (.pow (.var 1) (.const (-1 : Rat)))))))),
@@ -391,7 +391,7 @@ def heaviside_smooth : Rule :=
     dother := none,
     plain := some (.mul (.const ((1 : Rat) / 2)) (.add (.const (1 : Rat)) (.mul (.mul (.const (2 : Rat)) (.pow .pi (.const (-1 : Rat)))) (.un .arctan (.mul (.var 0) (.pow (.var 1) (.const (-1 : Rat)))))))) }
 
-/-- functions.py:463 characteristic_function(tol, var) -/
+/-- functions.py:467 characteristic_function(tol, var) -/
 def characteristic_function : Rule :=
   { name := "characteristic_function",
     val := (.ifgt (.un .abs (.var 0)) (.var 1) (.const (0 : Rat)) (.const (1 : Rat))),
